@@ -6,9 +6,9 @@ import (
 	"encoding/binary"
 	"fmt"
 	"math"
+	"runtime"
 	"strings"
 	"sync"
-	"sync/atomic"
 
 	"github.com/cnotch/ipchub/av/codec"
 	"github.com/cnotch/ipchub/av/format/rtp"
@@ -95,7 +95,11 @@ func (l *LogCapture) Logger() *xlog.Logger { return xlog.New(l) }
 
 // RtpBytes wraps a payload into an RTP packet.  variant selects header shapes that are all
 // legal RTP: 0 plain 12-byte header; 1 CSRC list; 2 header extension (RFC 3550 generic);
-// 3 padding; 4 CSRC+extension+padding.
+// 3 padding; 4 CSRC+extension+padding; 5 RFC 8285 one-byte-header extension; 6 RFC 8285
+// two-byte-header extension + padding.
+// A packet WITHOUT payload (RFC 3550 5.1 allows it; senders use it for pacing, probing and
+// keep-alive) is, two times out of three (by sequence number), a padding-only packet in every
+// variant: P bit set and the whole area after the header is padding.
 func RtpBytes(w WPkt, variant int, ssrc uint32) []byte {
 	var cc, x, p int
 	switch variant {
@@ -107,9 +111,25 @@ func RtpBytes(w WPkt, variant int, ssrc uint32) []byte {
 		p = 1
 	case 4:
 		cc, x, p = 2, 1, 1
+	case 5:
+		x = 2
+	case 6:
+		x, p = 3, 1
 	}
-	b := make([]byte, 12, 12+len(w.Payload)+64)
-	b[0] = 2<<6 | byte(p)<<5 | byte(x)<<4 | byte(cc)
+	padLen := 1 + int(w.Seq%4)
+	if w.Seq%16 == 5 {
+		padLen = []int{8, 32, 255, 12}[int(w.Seq>>4)%4]
+	}
+	if len(w.Payload) == 0 && w.Seq%3 != 0 {
+		p = 1
+		padLen = []int{1, 2, 3, 4, 8, 5, 255, 16}[int(w.Seq/3)%8]
+	}
+	b := make([]byte, 12, 12+len(w.Payload)+320)
+	xb := 0
+	if x != 0 {
+		xb = 1
+	}
+	b[0] = 2<<6 | byte(p)<<5 | byte(xb)<<4 | byte(cc)
 	b[1] = 96
 	if w.M {
 		b[1] |= 0x80
@@ -120,20 +140,27 @@ func RtpBytes(w WPkt, variant int, ssrc uint32) []byte {
 	for i := 0; i < cc; i++ {
 		b = append(b, 0xC0, 0xFF, byte(i), 0xEE)
 	}
-	if x == 1 {
+	switch x {
+	case 1:
 		words := 1 + int(w.Seq%2)
 		b = append(b, 0x12, 0x34, 0, byte(words))
 		for i := 0; i < words*4; i++ {
 			b = append(b, byte(0xA0+i))
 		}
+	case 2: // one-byte headers: id 1 (2 bytes), id 3 (1 byte), 2 bytes of padding
+		b = append(b, 0xBE, 0xDE, 0, 2, 0x11, 0xAA, 0xBB, 0x30, 0xCC, 0, 0, 0)
+		if w.Seq%2 == 1 { // id 2 and id 3 with 3 bytes each: the last element ends exactly at the end of the extension
+			b = append(b[:len(b)-8], 0x22, 0xAA, 0xBB, 0xCC, 0x32, 0xDD, 0xEE, 0xFF)
+		}
+	case 3: // two-byte headers: id 1 len 1, id 7 len 0, padding
+		b = append(b, 0x10, 0x00, 0, 2, 0x01, 0x01, 0xAA, 0x07, 0x00, 0, 0, 0)
 	}
 	b = append(b, w.Payload...)
 	if p == 1 {
-		n := 1 + int(w.Seq%4)
-		for i := 0; i < n-1; i++ {
+		for i := 0; i < padLen-1; i++ {
 			b = append(b, 0)
 		}
-		b = append(b, byte(n))
+		b = append(b, byte(padLen))
 	}
 	return b
 }
@@ -274,8 +301,17 @@ func checkPacket(p *rtp.Packet, w WPkt, out *ImplOut) {
 }
 
 // RunSync drives the exported depacketizers synchronously, packet by packet, dispatching on
-// the channel exactly as Demuxer.process does; it stops at the first panic.
+// the channel exactly as Demuxer.process does; it stops at the first panic.  The calls run under
+// a watchdog (Guard): a call that never returns gives Hung=true instead of a hung harness.
 func RunSync(c *Case, pkts []WPkt, order []int) ImplOut {
+	res := make(chan ImplOut, 1)
+	if Guard(func() { res <- runSync(c, pkts, order) }) {
+		return <-res
+	}
+	return ImplOut{Hung: true}
+}
+
+func runSync(c *Case, pkts []WPkt, order []int) ImplOut {
 	out := ImplOut{Alive: true}
 	vm, am := c.metas()
 	rec := NewRecorder()
@@ -358,20 +394,46 @@ func RunSync(c *Case, pkts []WPkt, order []int) ImplOut {
 // RunDemuxer pushes the packets through a real rtp.Demuxer (its own goroutine), one at a time,
 // waiting at the goroutine's schedule point (verifhook "rtpdemuxer.beforePop") until each packet
 // has been consumed; the death of the goroutine is recognised by the panic it logs.  Hung=true
-// only after a very generous timeout with neither.
+// only after HangBudget with neither.
 func RunDemuxer(c *Case, pkts []WPkt, order []int) ImplOut {
+	for try := 0; ; try++ {
+		out, dirty := runDemuxerOnce(c, pkts, order)
+		if !dirty || out.Hung {
+			return out
+		}
+		if try >= 3 {
+			out.Skipped = "contaminated:a goroutine of an earlier run passed a schedule point during this run"
+			return out
+		}
+	}
+}
+
+func runDemuxerOnce(c *Case, pkts []WPkt, order []int) (out ImplOut, dirty bool) {
+	base := runtime.NumGoroutine()
 	installHooks()
-	out := ImplOut{Alive: true}
+	out = ImplOut{Alive: true}
 	vm, am := c.metas()
 	rec := NewRecorder()
 	lg := NewLogCapture()
-	d0 := atomic.LoadInt64(&cntDemux)
 	dm, err := rtp.NewDemuxer(vm, am, rec, lg.Logger())
 	if err != nil {
 		out.Skipped = "newdemuxer:" + err.Error()
-		return out
+		return
 	}
-	defer dm.Close()
+	defer func() {
+		dm.Close()
+		if !out.Hung {
+			quiesce(base)
+		}
+		dirty = contaminated()
+	}()
+	// the worker registers at its first schedule point before anything is pushed
+	if ok, dead := waitFor(&cntDemux, 1, lg); dead {
+		out.Alive, out.Panic = false, lg.Panicked()
+	} else if !ok {
+		out.Hung, out.Alive = true, false
+		return
+	}
 	pushed := int64(0)
 	for _, i := range order {
 		if i < 0 || i >= len(pkts) {
@@ -388,7 +450,7 @@ func RunDemuxer(c *Case, pkts []WPkt, order []int) ImplOut {
 			continue
 		}
 		pushed++
-		ok, dead := waitFor(&cntDemux, d0+pushed+1, lg)
+		ok, dead := waitFor(&cntDemux, pushed+1, lg)
 		if dead {
 			out.Alive, out.Panic = false, lg.Panicked()
 		} else if !ok {
@@ -398,5 +460,5 @@ func RunDemuxer(c *Case, pkts []WPkt, order []int) ImplOut {
 	}
 	out.Frames = toMFrames(rec.Snapshot(), c, nil, nil)
 	out.Sps, out.Pps, out.Vps = vm.Sps, vm.Pps, vm.Vps
-	return out
+	return
 }
